@@ -17,12 +17,18 @@ package jwt
 
 import (
 	"encoding/json"
+	"errors"
 )
 
 func loadAuthorizationRequest(data []byte, version int) (*AuthorizationRequestClaims, error) {
 	var ac AuthorizationRequestClaims
 	if err := json.Unmarshal(data, &ac); err != nil {
 		return nil, err
+	}
+	// authorization claims have no version-1 form: the kind that selected this
+	// loader must be the one the claims themselves carry
+	if ac.Type != AuthorizationRequestClaim {
+		return nil, errors.New("not an authorization request claim")
 	}
 	return &ac, nil
 }
@@ -31,6 +37,9 @@ func loadAuthorizationResponse(data []byte, version int) (*AuthorizationResponse
 	var ac AuthorizationResponseClaims
 	if err := json.Unmarshal(data, &ac); err != nil {
 		return nil, err
+	}
+	if ac.Type != AuthorizationResponseClaim {
+		return nil, errors.New("not an authorization response claim")
 	}
 	return &ac, nil
 }
